@@ -206,6 +206,23 @@ def observe(sp, tr, ec, et, ef, goal_specs, graphs):
         "tc_line_cov": comp.TestCaseLineCoverageFunction(executor).compute_coverage(stub_tc),
         "tc_checked_cov": comp.TestCaseStatementCheckedCoverageFunction(executor).compute_coverage(stub_tc),
     }
+    # restrict(): exclusions accumulate on the restricted instance and on no other instance
+    f_before = comp.BranchDistanceTestSuiteFitnessFunction(executor)
+    f_restricted = comp.BranchDistanceTestSuiteFitnessFunction(executor)
+    all_code, all_pred = list(sp.branch_less_code_objects), list(sp.existing_predicates)
+    f_restricted.restrict(set(all_code[::2]), set(all_pred[::2]), set(all_pred[1::2]))
+    half = dict(ec=set(all_code[::2]), et=set(all_pred[::2]), ef=set(all_pred[1::2]))
+    api["restricted_half_fitness"] = f_restricted.compute_fitness(suite)
+    api["restricted_half_expected"] = fm.compute_branch_distance_fitness(tr, sp, half["ec"], half["et"], half["ef"])
+    f_restricted.restrict(set(all_code), set(all_pred), set(all_pred))
+    api["restricted_all_fitness"] = f_restricted.compute_fitness(suite)
+    api["restricted_all_covered"] = f_restricted.compute_is_covered(suite)
+    f_after = comp.BranchDistanceTestSuiteFitnessFunction(executor)
+    api["unrestricted_expected"] = fm.compute_branch_distance_fitness(tr, sp, None, None, None)
+    api["unrestricted_before"] = f_before.compute_fitness(suite)
+    api["unrestricted_after"] = f_after.compute_fitness(suite)
+    api["unrestricted_after_covered"] = f_after.compute_is_covered(suite)
+    api["unrestricted_expected_covered"] = fm.compute_branch_distance_fitness_is_covered(tr, sp, None, None, None)
     out["class_api"] = api
     ds = sorted({d for _, d in trace["td"] + trace["fd"]})[:6]
     out["norm"] = [(d, fm.normalise(d)) for d in ds]
@@ -268,6 +285,20 @@ def oracle(c):
                 bad.append((f"class:{k}", f"computations.py {k} gives {a[k]!r} but the metric function gives {v!r}"))
         if (c["cfit"] == 0) != bool(c["ccovd"]) or bool(c["ccovd"]) != (c["ccov"] == 1) or c["cfit"] < 0:
             bad.append(("suite:checked", f"checked fitness {c['cfit']}, covered {c['ccovd']}, coverage {c['ccov']!r}"))
+        if "unrestricted_expected" in a:
+            if a["restricted_half_fitness"] != a["restricted_half_expected"]:
+                bad.append(("class:restrict:half", f"restricted instance gives {a['restricted_half_fitness']!r}, the metric function with "
+                            f"the same exclusions gives {a['restricted_half_expected']!r}"))
+            if a["restricted_all_fitness"] != 0 or not a["restricted_all_covered"]:
+                bad.append(("class:restrict:all", f"every goal excluded but fitness {a['restricted_all_fitness']!r}, covered "
+                            f"{a['restricted_all_covered']}"))
+            for k in ("unrestricted_before", "unrestricted_after"):
+                if a[k] != a["unrestricted_expected"]:
+                    bad.append((f"class:restrict-leaks:{k}", f"an instance that was never restricted gives {a[k]!r} after another "
+                                f"instance was restricted; unrestricted fitness is {a['unrestricted_expected']!r}"))
+            if bool(a["unrestricted_after_covered"]) != bool(a["unrestricted_expected_covered"]):
+                bad.append(("class:restrict-leaks:covered", f"never-restricted instance says covered={a['unrestricted_after_covered']}, "
+                            f"expected {a['unrestricted_expected_covered']}"))
         if (a["suite_branch_fitness"] == 0) != bool(a["suite_branch_covered"]):
             bad.append(("suite:class:covered-vs-fitness", f"{a['suite_branch_fitness']!r} vs {a['suite_branch_covered']}"))
     for g in c["goals"]:
